@@ -7,10 +7,17 @@ Local Open Scope nat_scope.
 Record xof_variant := {
   xv_pb : nat;      (* first round of p^b: 0 for HASH/XOF (b = 12), 4 for HASHA/XOFA (b = 8) *)
   xv_lazy : bool;   (* how the C squeezes: XOF permutes before a block, XOFA after it *)
-  xv_iv : N         (* the 64-bit IV with output length 0 *)
+  xv_iv : N;        (* the 64-bit IV with output length 0 *)
+  xv_rate_in : nat; (* absorbing rate in bytes *)
+  xv_rate_out : nat;(* squeezing rate in bytes *)
+  xv_sep : bool     (* is the domain-separation bit flipped after the padding (ASCON-PRF) *)
 }.
-Definition vxof  := {| xv_pb := 0; xv_lazy := true;  xv_iv := 0x00400c0000000000%N |}.
-Definition vxofa := {| xv_pb := 4; xv_lazy := false; xv_iv := 0x00400c0400000000%N |}.
+Definition vxof  := {| xv_pb := 0; xv_lazy := true;  xv_iv := 0x00400c0000000000%N; xv_rate_in := 8; xv_rate_out := 8; xv_sep := false |}.
+Definition vxofa := {| xv_pb := 4; xv_lazy := false; xv_iv := 0x00400c0400000000%N; xv_rate_in := 8; xv_rate_out := 8; xv_sep := false |}.
+(* ASCON-PRF / ASCON-Mac: rate 256 in, 128 out, 12 rounds everywhere, separator; IV 80 80 8c 00 || bit length *)
+Definition vprf  := {| xv_pb := 0; xv_lazy := true;  xv_iv := 0x80808c0000000000%N; xv_rate_in := 32; xv_rate_out := 16; xv_sep := true |}.
+
+Definition sepf (v : xof_variant) (s : bytes) : bytes := if xv_sep v then xor_at s 39 [1%N] else s.
 
 Section WithPerm.
 Variable perm : nat -> bytes -> bytes.
@@ -25,11 +32,11 @@ Definition iv_state (v : xof_variant) (L : N) : bytes :=
 
 (* absorb: padded message blocks with p^b between them, p^a after the last *)
 Definition absorb_msg (v : xof_variant) (s : bytes) (msg : bytes) : bytes :=
-  perm 0 (fst (spec_duplex bf_enc (perm (xv_pb v)) 8 s msg)).
+  perm 0 (sepf v (fst (spec_duplex bf_enc (perm (xv_pb v)) (xv_rate_in v) s msg))).
 
 (* XOF_v with declared length L (0 = unlimited): the first n bytes of output *)
 Definition xof_fixed (v : xof_variant) (L : N) (msg : bytes) (n : nat) : bytes :=
-  spec_squeeze (perm (xv_pb v)) 8 (absorb_msg v (iv_state v L) msg) n.
+  spec_squeeze (perm (xv_pb v)) (xv_rate_out v) (absorb_msg v (iv_state v L) msg) n.
 
 Definition xof (v : xof_variant) (msg : bytes) (n : nat) : bytes := xof_fixed v 0 msg n.
 Definition hash (v : xof_variant) (msg : bytes) : bytes := xof_fixed v 32 msg 32.
@@ -46,10 +53,10 @@ Definition cxof_state (v : xof_variant) (name custom : bytes) (L : N) : bytes :=
   let s := perm 0 (be_encode 8 (iv_word v L) ++ name_field v name) in
   match custom with
   | [] => s
-  | _ => xor_at (perm (xv_pb v) (fst (spec_duplex bf_enc (perm (xv_pb v)) 8 s custom))) 39 [1%N]
+  | _ => xor_at (perm (xv_pb v) (fst (spec_duplex bf_enc (perm (xv_pb v)) (xv_rate_in v) s custom))) 39 [1%N]
   end.
 
 Definition cxof (v : xof_variant) (name custom : bytes) (L : N) (msg : bytes) (n : nat) : bytes :=
-  spec_squeeze (perm (xv_pb v)) 8 (absorb_msg v (cxof_state v name custom L) msg) n.
+  spec_squeeze (perm (xv_pb v)) (xv_rate_out v) (absorb_msg v (cxof_state v name custom L) msg) n.
 
 End WithPerm.
